@@ -11,7 +11,7 @@ import tempfile
 
 import rx
 
-from ..common import Check, Outcome, Snap, subscribe, bootstrap, norm, WORK
+from ..common import Check, Outcome, Snap, subscribe, subscribe2, bootstrap, norm, WORK
 
 rs = bootstrap()
 import pyarrow as pa                     # noqa: E402
@@ -43,6 +43,26 @@ def build_rows(spec):
     return rows
 
 
+def dress_rows(spec, rows):
+    '''The rows as handed to dump_to_file: any mapping is a row, so the key order of a dict may differ from the
+    schema's and from its neighbours', and keys the schema does not name are ignored.'''
+    mode = spec.get('rowform', 'uniform')
+    if mode == 'uniform':
+        return rows
+    r = random.Random(spec['rseed'] ^ 0x5a5a)
+    out = []
+    for k, row in enumerate(rows):
+        items = list(row.items())
+        if mode in ('mixed_order', 'mixed_extra') and r.random() < 0.4:
+            r.shuffle(items)
+        elif mode == 'reversed':
+            items.reverse()
+        if mode == 'mixed_extra' and r.random() < 0.5:
+            items.insert(r.randint(0, len(items)), ('not_in_schema', k))
+        out.append(dict(items))
+    return out
+
+
 class C20(Check):
     ID = 'C20'
     LEVEL = 'exploration'
@@ -50,12 +70,12 @@ class C20(Check):
     RULE = ('case = (row count, dump batch_size b, load batch sizes, row_group_size, compression, schema, path|file object, data seed); '
             'row counts from {0,1,2,b-1,b,b+1,2b-1,2b,2b+1,3b,5b, random <= 5000} for b in {1,2,3,7,64,1000,2000, random}; load batch '
             '1..2000; row_group_size None/small; compression none/snappy/gzip/zstd; schemas single int, flat int/string/float, nested '
-            'struct+list with nulls. The file is read by load_from_file and, independently, by pyarrow.parquet.read_table. '
+            'struct+list with nulls; rows are dicts in schema key order, in a per-row shuffled key order, reversed, or with a key the schema does not name. The file is read by load_from_file and, independently, by pyarrow.parquet.read_table. '
             'non-trivial = rows > dump batch_size (several batches written); distinct = hash of the case')
     ASSUMPTIONS = ['pyarrow is trusted as parquet codec and as the independent reader']
     ANCHORS = ['rxsci/container/parquet.py', 'rxsci/data/batch.py']
     REQUIRED_TAGS = ['none', 'snappy', 'gzip', 'zstd', 'rows=0', 'rows<b', 'rows=b', 'rows=kb', 'rows%b!=0', 'path', 'fileobj',
-                     'nested', 'row_group']
+                     'nested', 'row_group', 'rows-with-mixed_order', 'rows-with-mixed_extra', 'rows-with-reversed']
     REQUIRED_OBSERVED = ['rows_compared_rxsci_reader', 'rows_compared_pyarrow_reader']
 
     def __init__(self):
@@ -84,7 +104,8 @@ class C20(Check):
                    'load_batches': sorted({1 if rows <= 400 else 17, rng.randint(1, 2000), max(1, b)}),
                    'row_group_size': rng.choice([None, None, 1, 5, 100]),
                    'compression': comps[k % 4], 'schema': ['flat', 'nested', 'single'][(k // 4) % 3],
-                   'target': 'path' if k % 5 else 'fileobj', 'rseed': rng.randrange(1 << 30)}
+                   'target': 'path' if k % 5 else 'fileobj', 'rseed': rng.randrange(1 << 30),
+                   'rowform': ['uniform', 'mixed_order', 'uniform', 'mixed_extra', 'reversed'][(k // 2) % 5]}
 
     def evaluate(self, case):
         out = Outcome()
@@ -98,6 +119,9 @@ class C20(Check):
             out.tags.append('row_group')
         if n > b:
             out.nontrivial = True
+        src_rows = dress_rows(case, rows)
+        if case.get('rowform', 'uniform') != 'uniform' and case['schema'] != 'single' and n >= 2:
+            out.tags.append('rows-with-' + case['rowform'])
         schema = SCHEMAS[case['schema']]()
         path = os.path.join(self._tmpdir(), 'f.parquet')
         if os.path.exists(path):
@@ -105,10 +129,10 @@ class C20(Check):
         P = rs.container.parquet
         kw = dict(schema=schema, batch_size=b, row_group_size=case['row_group_size'], compression=case['compression'])
         if case['target'] == 'path':
-            w = subscribe(rx.from_(rows).pipe(P.dump_to_file(path, **kw)), Snap())
+            w = subscribe(rx.from_(src_rows).pipe(P.dump_to_file(path, **kw)), Snap())
         else:
             with open(path, 'wb') as f:
-                w = subscribe(rx.from_(rows).pipe(P.dump_to_file(f, **kw)), Snap())
+                w = subscribe(rx.from_(src_rows).pipe(P.dump_to_file(f, **kw)), Snap())
         if w.err is not None or not w.done:
             return out.fail('dump_to_file-failed', error=repr(w.err), done=w.done)
         out.observed['files_written'] += 1
@@ -131,7 +155,7 @@ class C20(Check):
             return out
         for lb in case['load_batches']:
             if case['target'] == 'path':
-                g = subscribe(P.load_from_file(path, batch_size=lb), Snap())
+                g = subscribe2(P.load_from_file(path, batch_size=lb), out, 'load_from_file', same=lambda x, y: repr(x) == repr(y))
             else:
                 with open(path, 'rb') as f:
                     g = subscribe(P.load_from_file(f, batch_size=lb), Snap())
@@ -154,6 +178,8 @@ class C20(Check):
             yield dict(case, schema='single')
         if case['row_group_size']:
             yield dict(case, row_group_size=None)
+        if case.get('rowform', 'uniform') != 'uniform':
+            yield dict(case, rowform='uniform')
 
 
 CHECK = C20()
